@@ -9,7 +9,7 @@ import colgen as G
 
 PID = "C06"
 CLUSTER = "Columns"
-PROPS = "props/C05.v"
+PROPS = "props/C06.v"
 N_QUICK = 900
 N_THOROUGH = 15000
 RULE = ("records built through the public API (MafRecord + column objects) for each of the 14 layouts: conforming records, one or "
